@@ -161,13 +161,17 @@ func (i *interpreter) slice(fr *frame, x, lo, hi, max value) value {
 			panic(runtimeErr("slice bounds out of range"))
 		}
 		if ls {
-			lo = int(i.concretise(fr, tl, "slice low"))
+			lo = int(i.concretiseRange(fr, tl, 0, uint64(Cap), "slice low"))
 		}
 		if hs {
-			hi = int(i.concretise(fr, th, "slice high"))
+			l0 := uint64(0)
+			if lo != nil {
+				l0 = uint64(asInt64(lo))
+			}
+			hi = int(i.concretiseRange(fr, th, l0, uint64(Cap), "slice high"))
 		}
 		if ms {
-			max = int(i.concretise(fr, tm, "slice max"))
+			max = int(i.concretiseRange(fr, tm, 0, uint64(Cap), "slice max"))
 		}
 	}
 	l := int64(0)
@@ -220,7 +224,7 @@ func (i *interpreter) symIndex(fr *frame, s sym, idxType types.Type, n int) int 
 	if !i.branchCheck(fr, c.Cmp(smt.OpBvUlt, t, c.Const(uint64(n), 64)), "index") {
 		panic(runtimeErr(fmt.Sprintf("index out of range [symbolic] with length %d", n)))
 	}
-	return int(i.concretise(fr, t, "index"))
+	return int(i.concretiseRange(fr, t, 0, uint64(n-1), "index"))
 }
 
 func (i *interpreter) symLoad(fr *frame, r *symref) value {
